@@ -347,6 +347,37 @@ func runC15(c *runCtx) {
 			}
 		}
 	}
+	// a format registered under a name that is not in normal form (mixed case), with a detector that matches: the
+	// detection result carries the name as registered and Is itself, in every decoration
+	if c.shard == 0 {
+		name := "application/vnd.Verif-C15.sheet.macroEnabled.12"
+		mimetype.Lookup("application/zip").Extend(func(raw []byte, _ uint32) bool { return bytes.HasPrefix(raw, []byte("PK\x03\x04verif-c15")) }, name, ".vc15", "Application/X-Verif-C15-Alias")
+		mimetype.Extend(func(raw []byte, _ uint32) bool { return bytes.HasPrefix(raw, []byte("VERIF-C15-ROOT")) }, "Application/X-Verif-C15-Root", ".vr15")
+		for _, probe := range []struct {
+			x    []byte
+			name string
+		}{{[]byte("PK\x03\x04verif-c15 and more bytes"), name}, {[]byte("VERIF-C15-ROOT\x00\x01"), "Application/X-Verif-C15-Root"}} {
+			for _, how := range []string{"Detect", "DetectReader"} {
+				var d *mimetype.MIME
+				if how == "Detect" {
+					d, _ = detectAt(probe.x, 3072)
+				} else {
+					mimetype.SetLimit(3072)
+					d, _ = mimetype.DetectReader(bytes.NewReader(probe.x))
+				}
+				c.stats.note("extended-mixed-case", append([]byte(how), probe.x...), len(probe.x), true)
+				if d == nil {
+					c.propfail("C15", "nil result for a run-time registration under a mixed-case name")
+					continue
+				}
+				s := d.String()
+				l := mimetype.Lookup(probe.name)
+				if s != probe.name || !d.Is(s) || !d.Is(strings.ToLower(s)) || !d.Is(" "+strings.ToUpper(s)+" ; q=1") || !mimetype.EqualsAny(s, "x/y", s) || l == nil || !l.Is(s) || d.Is("application/zip") && probe.name != name {
+					c.propfail("C15", fmt.Sprintf("%s result for a format registered as %q: String()=%q Is(self)=%v Is(lower)=%v Is(decorated)=%v EqualsAny(self,self)=%v Lookup(name).Is(self)=%v", how, probe.name, s, d.Is(s), d.Is(strings.ToLower(s)), d.Is(" "+strings.ToUpper(s)+" ; q=1"), mimetype.EqualsAny(s, "x/y", s), l != nil && l.Is(s)))
+				}
+			}
+		}
+	}
 	_ = bytes.MinRead
 }
 
